@@ -24,6 +24,7 @@ type Flavor struct {
 	docs             string
 	inherit          []*Flavor
 	defaultVars      map[string]slip.Object
+	noDefault        map[string]bool
 	keywords         map[string]slip.Object
 	methods          map[string]*slip.Method
 	included         []string
@@ -203,8 +204,11 @@ func (obj *Flavor) inheritFlavor(cf *Flavor) {
 		obj.allowOtherKeys = true
 	}
 	for k, v := range cf.defaultVars {
-		if _, has := obj.defaultVars[k]; !has {
+		// A variable named without a default value takes the default of the
+		// first inherited flavor that provides one.
+		if _, has := obj.defaultVars[k]; !has || obj.noDefault[k] {
 			obj.defaultVars[k] = v
+			obj.noDefault[k] = cf.noDefault[k]
 		}
 	}
 	for k, v := range cf.keywords {
@@ -506,7 +510,7 @@ func (obj *Flavor) LoadForm() slip.Object {
 	ivs := make(slip.List, len(keys))
 	for i, k := range keys {
 		ksym := slip.Symbol(k)
-		if v := obj.defaultVars[k]; v != nil {
+		if v := obj.defaultVars[k]; v != nil || !obj.noDefault[k] {
 			ivs[i] = slip.List{ksym, v}
 		} else {
 			ivs[i] = ksym
